@@ -260,7 +260,7 @@ pub fn judge(case: &Case) -> Outcome {
     let mut c2 = Case::new("c02.verdict");
     c2.rules = vec![text.clone(), rule_text(&PLAIN, &format!("not ({cond})"))];
     c2.docs = docs.clone();
-    let results = match c02::eval_case(&c2) {
+    let results = match c02::eval_case_impl(&c2, c02::OptimisedCheck::Tight) {
         Ok(r) => r,
         Err(Outcome::Skip(s)) => return Outcome::Skip(s),
         Err(o) => return o,
